@@ -41,13 +41,17 @@ void abtv_event(int kind, const void *obj, const void *who);
 #define ABTV_EVENT(kind, obj, who) abtv_event((kind), (obj), (who))
 
 /* Event kinds. */
-#define ABTV_EV_WAITLIST_ENQUEUE 1
-#define ABTV_EV_WAITLIST_SIGNAL 2
-#define ABTV_EV_WAITLIST_BROADCAST 3
-#define ABTV_EV_WAITLIST_TIMEOUT_UNLINK 4
-#define ABTV_EV_WAITLIST_TIMEOUT_WOKEN 5
+/* Wait list (abti_waitlist.h); obj: the wait list, who: the list element.  All are
+ * issued while the lock that protects the list is held. */
+#define ABTV_EV_WAITLIST_ENQUEUE 1        /* who was appended (untimed wait) */
+#define ABTV_EV_WAITLIST_DEQUEUE 2        /* who was chosen by signal/broadcast; not woken yet */
+#define ABTV_EV_WAITLIST_SIGNAL_DONE 3    /* signal finished updating the list */
+#define ABTV_EV_WAITLIST_TIMEOUT_UNLINK 4 /* who timed out and has unlinked itself */
+#define ABTV_EV_WAITLIST_TIMEOUT_WOKEN 5  /* who's deadline passed, but it had been dequeued */
 #define ABTV_EV_MEM_LOCAL_POOL_ACCESS 6 /* obj: the local memory pool being used */
 #define ABTV_EV_MEM_LOCAL_POOL_INIT 7    /* obj: a local memory pool starts or ends its life */
+#define ABTV_EV_WAITLIST_ENQUEUE_TIMED 8  /* who was appended (timed wait: keeps p_prev) */
+#define ABTV_EV_WAITLIST_BROADCAST_DONE 9 /* broadcast finished updating the list */
 
 #else /* !ABT_VERIF_SIM */
 
